@@ -30,17 +30,21 @@ C = {
 }
 
 EXTRA = {
- "C01": " Every observer is also asked across runs of exactly 2^8/2^16/2^17/2^20 (-1/+0/+1) changes (an answer remembered with a narrow change counter); clone independence is judged on observers with three holders at a time.",
- "C02": " The search continues on clones.",
- "C03": " Every constructor, Clone and the algebra again at sizes around every power of two up to 2^17; Has/Len/Slice across runs of exactly 2^k changes.",
- "C04": " Load/Range across runs of exactly 2^k Store/Delete calls. If the concrete layout is not a function of the history the search falls back to reference-model states (reported as layout_fallback).",
+ "C01": " NewOrdered over the extremes of 10 ordered types in every insertion order. Every observer is also asked across runs of exactly 2^8/2^16/2^17/2^20 (-1/+0/+1) changes (an answer remembered with a narrow change counter); clone independence is judged on observers with three holders at a time.",
+ "C02": " The search continues on clones. A comparator that panics at its k-th call (recovered) on int and 520-byte elements, then balance after every further removal.",
+ "C03": " Constructors detached from arguments of every shape (map[K]struct{}, maps.Set, named map types). Every constructor, Clone and the algebra again at sizes around every power of two up to 2^17; Has/Len/Slice across runs of exactly 2^k changes.",
+ "C04": " NaN keys. Load/Range across runs of exactly 2^k Store/Delete calls. If the concrete layout is not a function of the history the search falls back to reference-model states (reported as layout_fallback).",
  "C06": " A second, depth-bounded search hands stale handles (orphaned by Init) to every call and follows container/list into its ill-formed states (negative Len).",
  "C07": " Contains/Index/Get across runs of exactly 2^k changes; the call under test is the first call on a freshly constructed object.",
  "C09": " Keys that were used 2^8 / 2^16 (-1/+0/+1) times before two or three threads contend for them.",
  "C10": " 2^16+1 unbuffered subscribers that start receiving after the publish call began: one free-running execution per synchronous variant on the real runtime (a family member, not an exploration). Channel operations through package reflect are model operations too.",
  "C11": " Both lookup directions across runs of exactly 2^k changes; three holders (original, clone, clone of the clone) for clone independence.",
+ "C08": " Cells that fmt prints specially (nil pointers with pointer-receiver String, error-and-Stringer values).",
  "C12": " The same model at odd lengths in the millions for every function.",
- "C15": " BinarySearchFunc over 2^62+1 .. MaxInt zero-size elements.",
+ "C13": " The call after a recovered callback panic / Goexit, for every Func variant.",
+ "C14": " The whole battery again after a recovered callback panic of every callback-taking helper.",
+ "C18": " CompareAndSwap on uncomparable values that panics and is recovered, then the value is used again by both threads.",
+ "C15": " BinarySearchFunc over 2^62+1 .. MaxInt zero-size elements; the next sorts after a recovered panic of less.",
  "C20": " IsZero over every ordered triple of dynamic values under one static interface type (any, interface{IsZero() bool}, fmt.Stringer, error).",
 }
 
